@@ -179,11 +179,20 @@ static void reader_thread(void *arg) {
       snap = ldb_snapshot(g_db);
       printf("snap %d %d %llu @%ld\n", sched_self(), i, (unsigned long long)snap->sequence, sched_now());
       ro.snapshot = snap;
-      { char line[512]; int len = sprintf(line, "ret %d %d", sched_self(), i);
+      { char line[768]; int len = sprintf(line, "ret %d %d", sched_self(), i); int first[KEYS_PER_WRITER];
       for (j = 0; j < KEYS_PER_WRITER; j++) {
         key_for(kb, wi, j); ks = ldb_string(kb);
         rc = ldb_get(g_db, &ks, &v, &ro);
-        if (rc == LDB_OK) { len += sprintf(line + len, " %s=%d", kb, parse_version(&v)); ldb_free(v.data); } else if (rc == LDB_NOTFOUND) len += sprintf(line + len, " %s=-", kb); else len += sprintf(line + len, " %s=E%d", kb, rc);
+        if (rc == LDB_OK) { first[j] = parse_version(&v); len += sprintf(line + len, " %s=%d", kb, first[j]); ldb_free(v.data); } else if (rc == LDB_NOTFOUND) { first[j] = -1; len += sprintf(line + len, " %s=-", kb); } else { first[j] = -2 - rc; len += sprintf(line + len, " %s=E%d", kb, rc); }
+      }
+      /* a snapshot is immutable: the same keys read again through it (other threads have run in between: every get is a
+         scheduling point), last key first, must give what the first pass gave */
+      for (j = KEYS_PER_WRITER - 1; j >= 0; j--) {
+        int again;
+        key_for(kb, wi, j); ks = ldb_string(kb);
+        rc = ldb_get(g_db, &ks, &v, &ro);
+        if (rc == LDB_OK) { again = parse_version(&v); ldb_free(v.data); } else if (rc == LDB_NOTFOUND) again = -1; else again = -2 - rc;
+        if (again != first[j]) len += sprintf(line + len, " CHANGED:%s:%d:%d", kb, first[j], again);
       }
       printf("%s @%ld\n", line, sched_now()); }
       ldb_release(g_db, snap);
